@@ -13,7 +13,7 @@ calculated and generated).
 
 `enum` is the enumeration order of the residual's hash map; the theorems assume
 only `(enum b).Perm b`, and `C02.fill_order_free` shows the result does not
-depend on it (the C++ sorts by commodity symbol, balance.cc 273-300).
+depend on it (the C++ sorts with compare_by_commodity, balance.cc 273-300).
 -/
 import LedgerModel.Lemmas.Finalize
 import LedgerModel.Gen.Finalize
@@ -28,38 +28,54 @@ open FinX
 theorem C02.finalize_shape_pinned : Gen.finalizeShape = Pinned.finalizeShape := rfl
 
 /-- Exactly one must-balance posting `n` has no amount, at index `pre.length`
-    (any position).  If the transaction is accepted then, with `amts` the entries
-    of the residual of the other postings:
+    (any position).  If the transaction is accepted then, with `ps'` the postings
+    after the cost loop of xact.cc 288-352 (amounts that have a cost annotated with
+    the computed price and date, lot-priced costs at their basis — see
+    `C01.lot_cost_consistent`; the elided posting itself untouched, at the same
+    index) and `amts` the entries of the residual of those postings:
     * the result is `fillPosts …`: posting `i` carries `-amts[0]`, and one
       generated posting per further amount is appended, each on `n`'s account
       with `n`'s kind, all flagged calculated;
-    * `amts` has one entry per commodity, sorted by commodity symbol, and the
-      entry of commodity `c` is exactly the sum over the other must-balance
-      postings of cost-or-amount in `c` (a commodity without entry sums to 0);
+    * `amts` has one entry per commodity — annotated (lot) commodities are
+      commodities of their own — in `compare_by_commodity` order, and the entry
+      of commodity `c` is exactly the sum over the other must-balance postings of
+      cost-or-amount in `c` (a commodity without entry sums to 0);
     * the result sums to exactly zero in every commodity. -/
 theorem C02.finalize_fills_null (env : PrecEnv) (bucket : Option String)
-    (enum : Balance → Balance) (henum : ∀ b, (enum b).Perm b) (x : Xact) (x' : FXact)
+    (enum : Balance → Balance) (henum : ∀ b, (enum b).Perm b) (x : LXact) (x' : FXact)
     (pre post : List FPost) (n : FPost)
-    (hx : x.posts.map (FPost.ofPosting env) = pre ++ n :: post)
+    (hx : x.posts.map (FPost.ofPosting (liftEnv env)) = pre ++ n :: post)
     (hpre : ∀ p ∈ pre, p.mustBalance = true → (costOrAmt p).isSome = true)
     (hpost : ∀ p ∈ post, p.mustBalance = true → (costOrAmt p).isSome = true)
     (hn : n.mustBalance = true ∧ n.cost = none ∧ n.amount = none)
     (h : finalize env bucket enum x = .ok x') :
-    ∃ amts : List Amount,
-      x'.posts = fillPosts (pre ++ n :: post) pre.length n amts ∧
-      (∀ a ∈ amts, a.q = residual (pre ++ n :: post) a.comm) ∧
-      (∀ c, c ∉ amts.map (·.comm) → residual (pre ++ n :: post) c = 0) ∧
-      (amts.map (·.comm)).Nodup ∧ amts.Pairwise (fun a b => a.comm ≤ b.comm) ∧
+    ∃ (bal0 : Value) (ps' : List FPost) (bal' : Value) (amts : List Amount),
+      lotLoop (liftEnv env) (dateText x.date) (pre ++ n :: post) bal0 = .ok (ps', bal') ∧
+      ps'[pre.length]? = some n ∧
+      x'.posts = fillPosts ps' pre.length n amts ∧
+      (∀ a ∈ amts, a.q = residual ps' a.comm) ∧
+      (∀ c, c ∉ amts.map (·.comm) → residual ps' c = 0) ∧
+      (amts.map (·.comm)).Nodup ∧ amts.Pairwise (fun a b => commLe a.comm b.comm = true) ∧
       (∀ c, residual x'.posts c = 0) := by
   unfold finalize at h
   rw [hx] at h
-  obtain ⟨amts, h1, h2, h3, h4, h5⟩ :=
-    finalizeF_fills_null env bucket enum henum pre post n hpre hpost hn x' h
-  refine ⟨amts, h1, ?_, ?_, h3, h4, h5⟩
+  obtain ⟨bal0, ps', bal', amts, h0, hi, h1, h2, h3, h4, h5⟩ :=
+    finalizeF_fills_null (liftEnv env) bucket enum henum _ pre post n hpre hpost hn x' h
+  refine ⟨bal0, ps', bal', amts, h0, hi, h1, ?_, ?_, h3, h4, h5⟩
   · intro a ha
     rw [← h2 a.comm, den_of_mem_wf h3 ha]
   · intro c hc
     rw [← h2 c, den_eq_zero_of_not_mem amts c hc]
+
+/-- without costs the cost loop changes nothing: `ps'` above is the transaction as written -/
+theorem C02.no_cost_no_change (env : PrecEnv) (date : String) (ps : List FPost) (bal : Value)
+    (h : ∀ p ∈ ps, p.cost = none) : lotLoop env date ps bal = .ok (ps, bal) := by
+  induction ps generalizing bal with
+  | nil => rfl
+  | cons q qs ih =>
+    unfold lotLoop
+    rw [lotStep_nocost env date q (h q List.mem_cons_self)]
+    simp only [addGain, ih bal (fun r hr => h r (List.mem_cons_of_mem _ hr))]
 
 /-- what `fillPosts` is, spelled out: the null posting filled in place, the rest
     appended on the same account, all calculated -/
@@ -79,54 +95,63 @@ theorem C02.fillPosts_spec (ps : List FPost) (i : Nat) (n : FPost) (a : Amount) 
     rejected with "Only one posting with null amount allowed per transaction"
     (or its "account may be misspelled" variant). -/
 theorem C02.finalize_two_nulls (env : PrecEnv) (bucket : Option String) (enum : Balance → Balance)
-    (x : Xact) (pre rest : List FPost) (n₁ : FPost)
-    (hx : x.posts.map (FPost.ofPosting env) = pre ++ n₁ :: rest)
+    (x : LXact) (pre rest : List FPost) (n₁ : FPost)
+    (hx : x.posts.map (FPost.ofPosting (liftEnv env)) = pre ++ n₁ :: rest)
     (h₁ : n₁.mustBalance = true ∧ costOrAmt n₁ = none)
     (h₂ : ∃ p ∈ rest, p.mustBalance = true ∧ costOrAmt p = none) :
     finalize env bucket enum x = .error .twoNulls ∨
     finalize env bucket enum x = .error .misspelled := by
   unfold finalize
   rw [hx]
-  exact finalizeF_two_nulls env bucket enum pre rest n₁ h₁.1 h₁.2 h₂
+  exact finalizeF_two_nulls (liftEnv env) bucket enum _ pre rest n₁ h₁.1 h₁.2 h₂
 
-/-- A transaction with a single posting (must-balance, with an amount `a0` and
-    possibly a cost) while a bucket account `b` is in force: a posting on the
-    bucket account carrying the exact negation of the cost-or-amount is appended,
-    flagged calculated. -/
-theorem C02.finalize_bucket (env : PrecEnv) (b : String) (enum : Balance → Balance) (x : Xact)
-    (p : Posting) (a : Amount) (hx : x.posts = [p])
-    (hm : (FPost.ofPosting env p).mustBalance = true)
-    (hco : costOrAmt (FPost.ofPosting env p) = some a)
-    (ham : p.amount.isSome = true)
-    (hck : costsOk [FPost.ofPosting env p] = true) :
+/-- A transaction with a single posting (must-balance, with an amount and no
+    cost; the amount may carry a lot) while a bucket account `b` is in force: a
+    posting on the bucket account carrying the exact negation of the amount — in
+    its own, possibly annotated, commodity — is appended, flagged calculated. -/
+theorem C02.finalize_bucket (env : PrecEnv) (b : String) (enum : Balance → Balance) (x : LXact)
+    (p : LPosting) (a : Amount) (hx : x.posts = [p])
+    (hm : p.post.kind ≠ .virtual)
+    (ha : (FPost.ofPosting (liftEnv env) p).amount = some a)
+    (hc : p.post.cost = none) :
     finalize env (some b) enum x =
-      .ok ⟨[FPost.ofPosting env p,
-            bucketPost b p.state (some ({ a with keep := false } : Amount).neg) true]⟩ := by
+      .ok ⟨[FPost.ofPosting (liftEnv env) p,
+            bucketPost b p.post.state (some ({ a with keep := false } : Amount).neg) true]⟩ := by
   unfold finalize
   rw [hx]
-  exact finalizeF_bucket env b enum _ a hm hco ham hck
+  have hcn : (FPost.ofPosting (liftEnv env) p).cost = none := by
+    simp only [FPost.ofPosting, hc]; split <;> simp_all
+  have hco : costOrAmt (FPost.ofPosting (liftEnv env) p) = some a := by
+    simp [costOrAmt, hcn, ha]
+  have hck : costsOk [FPost.ofPosting (liftEnv env) p] = true := by
+    simp [costsOk, hcn]
+  exact finalizeF_bucket (liftEnv env) b enum _ _ _ a (by simp [FPost.mustBalance, FPost.ofPosting, hm]) hco
+    (by rw [ha]; rfl) hck (lotStep_nocost _ _ _ hcn)
 
 /-- With a cost, the COST commodity is what the elided posting offsets: a
-    posting `a @ k` / `a @@ k` followed by an elided one yields the exact
-    negation of the total cost, in the cost's commodity. -/
-theorem C02.cost_commodity_offset (env : PrecEnv) (enum : Balance → Balance) (x : Xact)
-    (p n : Posting) (a : Amount) (k : Cost) (hx : x.posts = [p, n])
-    (hp : p.kind ≠ .virtual ∧ p.amount = some a ∧ p.cost = some k) (hak : a.comm ≠ k.amt.comm)
-    (hn : n.kind ≠ .virtual ∧ n.amount = none) :
+    posting `a @ k` / `a @@ k` (no lot price) followed by an elided one yields the
+    exact negation of the total cost, in the cost's commodity; the priced posting
+    comes back annotated with the computed per-unit price and the date. -/
+theorem C02.cost_commodity_offset (env : PrecEnv) (enum : Balance → Balance) (x : LXact)
+    (p n : LPosting) (a : Amount) (k : Cost) (pu : Amount) (hx : x.posts = [p, n])
+    (hp : p.post.kind ≠ .virtual ∧ p.post.amount = some a ∧ p.post.cost = some k ∧ p.lot = none)
+    (hak : a.comm ≠ k.amt.comm)
+    (hpu : perUnitCost (liftEnv env) a (parseCost (liftEnv env) a k) = .ok pu)
+    (hn : n.post.kind ≠ .virtual ∧ n.post.amount = none) :
     finalize env none enum x =
-      .ok ⟨[FPost.ofPosting env p,
-            { FPost.ofPosting env n with
-              amount := some ({ parseCost env a k with keep := false } : Amount).neg,
+      .ok ⟨[annotatedPost (FPost.ofPosting (liftEnv env) p) a pu (dateText x.date),
+            { FPost.ofPosting (liftEnv env) n with
+              amount := some ({ parseCost (liftEnv env) a k with keep := false } : Amount).neg,
               calculated := true }]⟩ ∧
-    ({ parseCost env a k with keep := false } : Amount).neg.comm = k.amt.comm ∧
-    ({ parseCost env a k with keep := false } : Amount).neg.q =
+    ({ parseCost (liftEnv env) a k with keep := false } : Amount).neg.comm = k.amt.comm ∧
+    ({ parseCost (liftEnv env) a k with keep := false } : Amount).neg.q =
       - (if k.perUnit then k.amt.q * a.q else if a.q < 0 then - k.amt.q else k.amt.q) := by
-  have hcomm : (parseCost env a k).comm = k.amt.comm := by
+  have hcomm : (parseCost (liftEnv env) a k).comm = k.amt.comm := by
     unfold parseCost
     split
     · rfl
     · split <;> rfl
-  have hq : (parseCost env a k).q = (if k.perUnit then k.amt.q * a.q else if a.q < 0 then - k.amt.q else k.amt.q) := by
+  have hq : (parseCost (liftEnv env) a k).q = (if k.perUnit then k.amt.q * a.q else if a.q < 0 then - k.amt.q else k.amt.q) := by
     unfold parseCost
     split
     · simp [Amount.mul_q]
@@ -134,25 +159,28 @@ theorem C02.cost_commodity_offset (env : PrecEnv) (enum : Balance → Balance) (
   refine ⟨?_, by simp [Amount.neg, hcomm], by simp [Amount.neg, hq]⟩
   unfold finalize
   rw [hx]
-  have hpm : (FPost.ofPosting env p).mustBalance = true := by simp [FPost.mustBalance, FPost.ofPosting, hp.1]
-  have hnm : nullMB (FPost.ofPosting env n) := by
+  have hpm : (FPost.ofPosting (liftEnv env) p).mustBalance = true := by simp [FPost.mustBalance, FPost.ofPosting, hp.1]
+  have hnm : nullMB (FPost.ofPosting (liftEnv env) n) := by
     simp [nullMB, FPost.mustBalance, FPost.ofPosting, hn.1, hn.2]
-  have hpa : (FPost.ofPosting env p).amount = some a := hp.2.1
-  have hpc : (FPost.ofPosting env p).cost = some (parseCost env a k) := by
-    simp [FPost.ofPosting, hp.2.1, hp.2.2]
-  exact finalizeF_pair env enum _ _ a _ hpm hpa hpc (by rw [hcomm]; exact hak) hnm
+  have hpa : (FPost.ofPosting (liftEnv env) p).amount = some a := by
+    rw [ofPosting_amount_plain _ p hp.2.2.2]; exact hp.2.1
+  have hpc : (FPost.ofPosting (liftEnv env) p).cost = some (parseCost (liftEnv env) a k) := by
+    simp [FPost.ofPosting, hp.2.1, hp.2.2.1]
+  have hpl : (FPost.ofPosting (liftEnv env) p).lotPrice = none := by
+    simp [FPost.ofPosting, hp.2.2.2]
+  exact finalizeF_pair (liftEnv env) enum _ _ _ a _ pu hpm hpa hpc hpl hpu (by rw [hcomm]; exact hak) hnm
 
 /-- With a null posting present the result does not depend on the order in which
     the hash map of the residual is enumerated (`balance_t::map_sorted_amounts`
-    sorts by commodity symbol and each commodity occurs once). -/
+    sorts by `compare_by_commodity` and each commodity occurs once). -/
 theorem C02.fill_order_free (env : PrecEnv) (bucket : Option String) (e₁ e₂ : Balance → Balance)
-    (h₁ : ∀ b, (e₁ b).Perm b) (h₂ : ∀ b, (e₂ b).Perm b) (x : Xact)
-    (hnull : ∃ p ∈ x.posts, p.kind ≠ .virtual ∧ p.amount = none) :
+    (h₁ : ∀ b, (e₁ b).Perm b) (h₂ : ∀ b, (e₂ b).Perm b) (x : LXact)
+    (hnull : ∃ p ∈ x.posts, p.post.kind ≠ .virtual ∧ p.post.amount = none) :
     finalize env bucket e₁ x = finalize env bucket e₂ x := by
   unfold finalize
-  apply finalizeF_order_free env bucket e₁ e₂ h₁ h₂
+  apply finalizeF_order_free (liftEnv env) bucket e₁ e₂ h₁ h₂
   obtain ⟨p, hp, hk, ha⟩ := hnull
-  refine ⟨FPost.ofPosting env p, List.mem_map.2 ⟨p, hp, rfl⟩, ?_, ?_⟩
+  refine ⟨FPost.ofPosting (liftEnv env) p, List.mem_map.2 ⟨p, hp, rfl⟩, ?_, ?_⟩
   · simp [FPost.mustBalance, FPost.ofPosting, hk]
   · simp [costOrAmt, FPost.ofPosting, ha]
 
@@ -169,8 +197,10 @@ private def usd (n : Int) (d : Nat) : Amount := { q := mkRat n (10 ^ d), prec :=
 private def aaa (n : Int) : Amount := { q := n, prec := 0, keep := false, comm := "AAA" }
 private def mkPost (acct : String) (k : PostKind) (a : Option Amount) (c : Option Cost) : Posting :=
   { account := acct, kind := k, state := 0, amount := a, cost := c, assert := none, note := "", line := 0 }
-private def mkX (ps : List Posting) : Xact :=
-  { date := 18000, aux := none, state := 0, code := "", payee := "p", note := "", posts := ps, line := 1, endLine := 3 }
+private def mkX (ps : List Posting) : LXact := { date := 18262, posts := ps.map (fun p => ⟨p, none⟩) }
+private def lot (price : Int) (d : Option String) : LotSpec :=
+  { price := some (usd price 2), total := false, fixated := false, date := d, tag := none }
+private def mkL (ps : List (Posting × Option LotSpec)) : LXact := { date := 18262, posts := ps.map (fun p => ⟨p.1, p.2⟩) }
 private def env2 : PrecEnv := fun c => if c = "EUR" ∨ c = "$" then 2 else 0
 
 /-- null posting first, three commodities (one of them on a [bracketed] posting):
@@ -181,6 +211,16 @@ example : (finalize env2 none List.reverse (mkX [mkPost "N" .real none none,
       (fun fx => fx.posts.map (fun p => (p.account, p.amount.map (fun a => (a.comm, a.q)), p.calculated)))
     = some [("N", some ("$", -5), true), ("A", some ("EUR", 10), false), ("B", some ("$", 5), false),
             ("C", some ("AAA", 7), false), ("N", some ("AAA", -7), true), ("N", some ("EUR", -10), true)] := by
+  decide +kernel
+
+/-- elided posting next to two lots of one commodity: one inferred posting per lot,
+    each in its own annotated commodity, the cheaper lot first -/
+example : (finalize env2 none List.reverse (mkL [(mkPost "A" .real (some (aaa 5)) none, some (lot 600 none)),
+      (mkPost "A" .real (some (aaa 10)) none, some (lot 500 (some "2019/02/01"))),
+      (mkPost "N" .real none none, none)])).toOption.map
+      (fun fx => fx.posts.map (fun p => (p.account, (p.amount.map (·.comm)).getD "", (p.amount.map (·.q)).getD 0, p.calculated)))
+    = some [("A", "AAA{6/1 $}[]()", (5 : Rat), false), ("A", "AAA{5/1 $}[2019/02/01]()", (10 : Rat), false),
+            ("N", "AAA{5/1 $}[2019/02/01]()", (-10 : Rat), true), ("N", "AAA{6/1 $}[]()", (-5 : Rat), true)] := by
   decide +kernel
 
 /-- two null postings -/
@@ -198,7 +238,7 @@ example : (finalize env2 (some "Bucket") id (mkX [mkPost "A" .real (some (eur 10
 example : (finalize env2 none id (mkX [mkPost "A" .real (some (aaa 10)) (some ⟨usd 250 2, true⟩),
       mkPost "N" .real none none])).toOption.map
       (fun fx => fx.posts.map (fun p => (p.account, p.amount.map (fun a => (a.comm, a.q)), p.calculated)))
-    = some [("A", some ("AAA", 10), false), ("N", some ("$", -25), true)] := by
+    = some [("A", some ("AAA{5/2 $}[2020/01/01]()", 10), false), ("N", some ("$", -25), true)] := by
   decide +kernel
 
 end Ledger
